@@ -38,5 +38,6 @@ Finalize(v, txt) ==
       [] v[1] = "I" -> <<"I", Finalize(v[2], txt), Finalize(v[3], txt), Finalize(v[4], txt)>>
       [] v[1] = "P" -> <<"P", Finalize(v[2], txt), Finalize(v[3], txt)>>
       [] v[1] = "Q" -> <<"Q", Finalize(v[2], txt), Finalize(v[3], txt)>>
+      [] v[1] = "d" -> <<"d", [j \in 1..Len(v[2]) |-> <<Finalize(v[2][j][1], txt), Finalize(v[2][j][2], txt)>>]>>
       [] OTHER -> v
 =============================================================================
